@@ -132,7 +132,11 @@ func (p *parser) parseIPv4Number(u *Url, input string) (number int64, validation
 		validationError = true
 		return
 	}
-	number, err = strconv.ParseInt(input, R, 64)
+	// ParseUint, unlike ParseInt, does not accept a leading sign. 63 bits keep the result
+	// representable as a non-negative int64; larger numbers give strconv.ErrRange.
+	var n uint64
+	n, err = strconv.ParseUint(input, R, 63)
+	number = int64(n)
 	return
 }
 
